@@ -344,7 +344,9 @@ pub fn gen_string(ch: &mut Chooser, mode: StrMode) -> String {
 }
 
 // ---------------------------------------------------------------------------------------------
-// simple constant bindings with expectations
+// constant bindings with expectations (the binding catalogue of DESIGN.md appendix A)
+
+use crate::xml::{Elem, Node};
 
 #[derive(Clone, Debug, PartialEq)]
 pub enum EVal {
@@ -356,21 +358,34 @@ pub enum EVal {
     Set(BTreeSet<String>),
     Cstring(String),
     StrList { items: Vec<String>, tr: bool },
+    CursorShape(String),
+    Pixmap(String),
+    /// structured value: expected element, compared up to child order and blank text
+    Tree(Elem),
+    /// model items of a combo box / list widget: texts with tr marking
+    ModelItems(Vec<(String, bool)>),
 }
 
 #[derive(Clone, Debug, PartialEq)]
 pub enum Surface {
     /// `<property name=…>` under the object's element
     Prop(String),
-    /// `<attribute name=…>` under the object's element (tab pages)
+    /// `<attribute name=…>` under the object's element (tab pages, header views)
     Attr(String),
+    /// `<item>` children of the widget element
+    Items,
 }
 
 #[derive(Clone, Debug, PartialEq)]
 pub struct Expect {
+    pub obj: Vec<usize>,
+    /// indices into obj.binds of the bindings that produce this value
+    pub binds: Vec<usize>,
+    /// catalogue kind, for histograms
+    pub kind: &'static str,
     pub surface: Surface,
     pub value: EVal,
-    /// Some(true) when uic must use setProperty (stdset="0")
+    /// uic must use setProperty (stdset="0")
     pub stdset0: bool,
 }
 
@@ -400,6 +415,13 @@ pub fn simple_props(cls: &str) -> Vec<PropInfo> {
         .collect()
 }
 
+pub fn gen_str_value(ch: &mut Chooser, strings: StrMode, allow_tr: bool) -> (String, String, bool) {
+    let s = gen_string(ch, strings);
+    let tr = allow_tr && ch.chance(1, 3);
+    let lit = js_string(&s);
+    (if tr { format!("qsTr({lit})") } else { lit }, s, tr)
+}
+
 pub fn gen_value(ch: &mut Chooser, ty: &Ty, strings: StrMode) -> Option<(String, EVal)> {
     Some(match ty {
         Ty::Bool => {
@@ -411,7 +433,7 @@ pub fn gen_value(ch: &mut Chooser, ty: &Ty, strings: StrMode) -> Option<(String,
                 0 => ch.below(20) as i64,
                 1 => ch.below(1000) as i64,
                 2 => -(ch.below(50) as i64) - 1,
-                _ => *ch.pick(&[0i64, 1, 255, 65535, 2147483647, -2147483648 + 1]),
+                _ => *ch.pick(&[0i64, 1, 255, 65535, 2147483647, -2147483647]),
             };
             let text = if v >= 0 && ch.chance(1, 10) { format!("0x{v:x}") } else { v.to_string() };
             (text, EVal::Int(v))
@@ -421,10 +443,8 @@ pub fn gen_value(ch: &mut Chooser, ty: &Ty, strings: StrMode) -> Option<(String,
             (t.to_owned(), EVal::Double(v))
         }
         Ty::Str => {
-            let s = gen_string(ch, strings);
-            let tr = ch.chance(1, 3);
-            let lit = js_string(&s);
-            (if tr { format!("qsTr({lit})") } else { lit }, EVal::Str { s, tr })
+            let (text, s, tr) = gen_str_value(ch, strings, true);
+            (text, EVal::Str { s, tr })
         }
         Ty::Enum(scope, name, is_flag) => {
             let vars: Vec<String> = meta()
@@ -455,33 +475,468 @@ pub fn gen_value(ch: &mut Chooser, ty: &Ty, strings: StrMode) -> Option<(String,
     })
 }
 
-/// Adds 0..max simple constant bindings to every object; records what the .ui must show.
-/// `expects[tag-1]` belongs to the binding with that tag.
-pub fn decorate_simple(ch: &mut Chooser, root: &mut Obj, max_per_obj: usize, strings: StrMode, expects: &mut Vec<Expect>) {
-    fn rec(ch: &mut Chooser, o: &mut Obj, max: usize, strings: StrMode, expects: &mut Vec<Expect>) {
-        if !is_separator(o) {
-            let props = simple_props(&o.class);
-            if !props.is_empty() {
-                let n = ch.below(max + 1);
-                let mut used: BTreeSet<String> = o.binds.iter().map(|b| b.path.clone()).collect();
-                for _ in 0..n {
-                    let p = ch.pick(&props).clone();
-                    if used.contains(&p.name) {
-                        continue;
-                    }
-                    if let Some((text, val)) = gen_value(ch, &p.ty, strings) {
-                        used.insert(p.name.clone());
-                        expects.push(Expect { surface: Surface::Prop(p.name.clone()), value: val, stdset0: !p.std_set && o.class != "QSpacerItem" });
-                        o.binds.push(Bind::tagged(p.name.clone(), text, expects.len()));
-                    }
+/// marks an expected element that holds child elements (possibly none), not text
+const CONTAINER_MARK: &str = "\u{0}container";
+
+fn el(name: &str, attrs: &[(&str, String)], children: Vec<Elem>) -> Elem {
+    let mut c: Vec<Node> = children.into_iter().map(Node::Elem).collect();
+    if c.is_empty() {
+        c.push(Node::Text(CONTAINER_MARK.to_owned()));
+    }
+    Elem {
+        name: name.to_owned(),
+        attrs: attrs.iter().map(|(k, v)| ((*k).to_owned(), v.clone())).collect(),
+        children: c,
+    }
+}
+
+fn el_text(name: &str, attrs: &[(&str, String)], text: impl Into<String>) -> Elem {
+    let t: String = text.into();
+    Elem {
+        name: name.to_owned(),
+        attrs: attrs.iter().map(|(k, v)| ((*k).to_owned(), v.clone())).collect(),
+        children: if t.is_empty() { vec![] } else { vec![Node::Text(t)] },
+    }
+}
+
+fn str_el(name: &str, s: &str, tr: bool) -> Elem {
+    if tr {
+        el_text(name, &[], s)
+    } else {
+        el_text(name, &[("notr", "true".to_owned())], s)
+    }
+}
+
+/// `<color alpha=…><red/><green/><blue/>` for a colour string the C19 oracle accepts
+pub fn color_el(s: &str) -> Option<Elem> {
+    let (r, g, b, a) = crate::checks::c19::expected(s)?;
+    Some(el(
+        "color",
+        &[("alpha", a.to_string())],
+        vec![el_text("red", &[], r.to_string()), el_text("green", &[], g.to_string()), el_text("blue", &[], b.to_string())],
+    ))
+}
+
+fn solid_brush_el(color: &str) -> Option<Elem> {
+    Some(el("brush", &[("brushstyle", "SolidPattern".to_owned())], vec![color_el(color)?]))
+}
+
+const COLORS: &[&str] = &["red", "#123", "#80123abc", "Blue", "transparent", "#fff", "#0f08", "darkkhaki", "#A1B2C3"];
+const PIXMAPS: &[&str] = &["a.png", ":/icons/open.svg", "dir/with space.png", "x&y.png", "<p>.png"];
+const ROLES: &[&str] = &["window", "windowText", "base", "text", "button", "buttonText", "highlight", "toolTipBase", "placeholderText", "link"];
+
+fn cap(s: &str) -> String {
+    let mut c = s.chars();
+    match c.next() {
+        Some(f) => format!("{}{}", f.to_ascii_uppercase(), c.as_str()),
+        None => String::new(),
+    }
+}
+
+struct Deco<'c, 'a, 'e> {
+    ch: &'c mut Chooser<'a>,
+    strings: StrMode,
+    expects: &'e mut Vec<Expect>,
+    rich: bool,
+}
+
+impl Deco<'_, '_, '_> {
+    fn push(&mut self, o: &mut Obj, path: &[usize], kind: &'static str, surface: Surface, value: EVal, stdset0: bool, binds: Vec<Bind>) {
+        let start = o.binds.len();
+        let idxs: Vec<usize> = (start..start + binds.len()).collect();
+        o.binds.extend(binds);
+        self.expects.push(Expect { obj: path.to_vec(), binds: idxs, kind, surface, value, stdset0 });
+        self.ch.label(kind);
+    }
+
+    fn scalar(&mut self, o: &mut Obj, path: &[usize], used: &mut BTreeSet<String>) {
+        let props = simple_props(&o.class);
+        if props.is_empty() {
+            return;
+        }
+        let p = self.ch.pick(&props).clone();
+        if used.contains(&p.name) {
+            return;
+        }
+        if let Some((text, val)) = gen_value(self.ch, &p.ty, self.strings) {
+            used.insert(p.name.clone());
+            let stdset0 = !p.std_set && o.class != "QSpacerItem";
+            self.push(o, path, "scalar", Surface::Prop(p.name.clone()), val, stdset0, vec![Bind::new(p.name.clone(), text)]);
+        }
+    }
+
+    fn font(&mut self, o: &mut Obj, path: &[usize], prop: &str, stdset0: bool) {
+        let mut binds = vec![];
+        let mut kids = vec![];
+        let members = ["family", "pointSize", "weight", "italic", "bold", "underline", "strikeout", "kerning", "styleStrategy"];
+        let n = 1 + self.ch.below(4);
+        let mut seen = BTreeSet::new();
+        for _ in 0..n {
+            let m = *self.ch.pick(&members);
+            if !seen.insert(m) {
+                continue;
+            }
+            let tag = m.to_ascii_lowercase();
+            match m {
+                "family" => {
+                    let (text, s, tr) = gen_str_value(self.ch, self.strings, true);
+                    binds.push(Bind::new(format!("{prop}.{m}"), text));
+                    kids.push(str_el(&tag, &s, tr));
+                }
+                "pointSize" | "weight" => {
+                    let v = 1 + self.ch.below(90);
+                    binds.push(Bind::new(format!("{prop}.{m}"), v.to_string()));
+                    kids.push(el_text(&tag, &[], v.to_string()));
+                }
+                "styleStrategy" => {
+                    let v = *self.ch.pick(&["PreferDefault", "PreferAntialias", "NoAntialias", "PreferBitmap"]);
+                    binds.push(Bind::new(format!("{prop}.{m}"), format!("QFont.{v}")));
+                    kids.push(el_text(&tag, &[], v));
+                }
+                _ => {
+                    let b = self.ch.chance(1, 2);
+                    binds.push(Bind::new(format!("{prop}.{m}"), b.to_string()));
+                    kids.push(el_text(&tag, &[], b.to_string()));
                 }
             }
         }
-        for c in &mut o.children {
-            rec(ch, c, max, strings, expects);
+        self.push(o, path, "gadget-font", Surface::Prop(prop.to_owned()), EVal::Tree(el("font", &[], kids)), stdset0, binds);
+    }
+
+    fn size_like(&mut self, o: &mut Obj, path: &[usize], prop: &str, tag: &str, members: &[&str]) {
+        let mut binds = vec![];
+        let mut kids = vec![];
+        let all = self.ch.chance(2, 3);
+        for m in members {
+            if all || self.ch.chance(1, 2) {
+                let v = self.ch.below(500) as i64;
+                binds.push(Bind::new(format!("{prop}.{m}"), v.to_string()));
+                kids.push(el_text(m, &[], v.to_string()));
+            }
+        }
+        if binds.is_empty() {
+            let m = members[0];
+            binds.push(Bind::new(format!("{prop}.{m}"), "7"));
+            kids.push(el_text(m, &[], "7"));
+        }
+        let kind = if tag == "rect" { "gadget-rect" } else { "gadget-size" };
+        let std = meta().prop(&o.class, prop).map(|p| p.std_set).unwrap_or(true);
+        self.push(o, path, kind, Surface::Prop(prop.to_owned()), EVal::Tree(el(tag, &[], kids)), !std && o.class != "QSpacerItem", binds);
+    }
+
+    fn size_policy(&mut self, o: &mut Obj, path: &[usize]) {
+        let pols = ["Fixed", "Minimum", "Maximum", "Preferred", "Expanding", "MinimumExpanding", "Ignored"];
+        let h = *self.ch.pick(&pols);
+        let v = *self.ch.pick(&pols);
+        let mut binds = vec![
+            Bind::new("sizePolicy.horizontalPolicy", format!("QSizePolicy.{h}")),
+            Bind::new("sizePolicy.verticalPolicy", format!("QSizePolicy.{v}")),
+        ];
+        let mut kids = vec![];
+        if self.ch.chance(1, 3) {
+            let s = self.ch.below(10);
+            binds.push(Bind::new("sizePolicy.horizontalStretch", s.to_string()));
+            kids.push(el_text("horstretch", &[], s.to_string()));
+        }
+        if self.ch.chance(1, 3) {
+            let s = self.ch.below(10);
+            binds.push(Bind::new("sizePolicy.verticalStretch", s.to_string()));
+            kids.push(el_text("verstretch", &[], s.to_string()));
+        }
+        let k = self.ch.below(binds.len());
+        binds.rotate_left(k);
+        self.push(o, path, "gadget-sizepolicy", Surface::Prop("sizePolicy".into()),
+            EVal::Tree(el("sizepolicy", &[("hsizetype", h.to_owned()), ("vsizetype", v.to_owned())], kids)), false, binds);
+    }
+
+    fn palette(&mut self, o: &mut Obj, path: &[usize]) {
+        // default roles (palette.window: c) apply to all three groups unless the group overrides them
+        let mut defaults: Vec<(String, &str)> = vec![];
+        let mut groups: Vec<(&str, Vec<(String, &str)>)> = vec![("active", vec![]), ("inactive", vec![]), ("disabled", vec![])];
+        let mut binds = vec![];
+        let n = 1 + self.ch.below(5);
+        let mut seen = BTreeSet::new();
+        for _ in 0..n {
+            let role = *self.ch.pick(ROLES);
+            let color = *self.ch.pick(COLORS);
+            let g = self.ch.below(4);
+            let key = (g, role);
+            if !seen.insert(key) {
+                continue;
+            }
+            if g == 3 {
+                defaults.push((cap(role), color));
+                binds.push(Bind::new(format!("palette.{role}"), js_string(color)));
+            } else {
+                groups[g].1.push((cap(role), color));
+                binds.push(Bind::new(format!("palette.{}.{role}", groups[g].0), js_string(color)));
+            }
+        }
+        // bindings of one group must be adjacent for grouped printing; order does not matter
+        binds.sort_by(|a, b| a.path.cmp(&b.path));
+        let mut kids = vec![];
+        for (gname, roles) in &groups {
+            let mut merged: Vec<(String, &str)> = roles.clone();
+            for (r, c) in &defaults {
+                if !merged.iter().any(|(mr, _)| mr == r) {
+                    merged.push((r.clone(), c));
+                }
+            }
+            let role_els = merged.iter().map(|(r, c)| el("colorrole", &[("role", r.clone())], vec![solid_brush_el(c).unwrap()])).collect();
+            kids.push(el(gname, &[], role_els));
+        }
+        self.push(o, path, "gadget-palette", Surface::Prop("palette".into()), EVal::Tree(el("palette", &[], kids)), false, binds);
+    }
+
+    fn icon(&mut self, o: &mut Obj, path: &[usize], prop: &str, surface: Surface) {
+        let mut binds = vec![];
+        let mut attrs: Vec<(&str, String)> = vec![];
+        let mut kids = vec![];
+        if self.ch.chance(1, 2) {
+            let (text, s, _) = gen_str_value(self.ch, self.strings, false);
+            binds.push(Bind::new(format!("{prop}.name"), text));
+            attrs.push(("theme", s));
+        }
+        let states = ["normalOff", "normalOn", "disabledOff", "activeOn", "selectedOff"];
+        let n = if binds.is_empty() { 1 + self.ch.below(2) } else { self.ch.below(3) };
+        let mut seen = BTreeSet::new();
+        for _ in 0..n {
+            let st = *self.ch.pick(&states);
+            if !seen.insert(st) {
+                continue;
+            }
+            let px = if self.strings == StrMode::Xml && self.ch.chance(1, 2) { gen_string(self.ch, StrMode::Xml) } else { (*self.ch.pick(PIXMAPS)).to_owned() };
+            binds.push(Bind::new(format!("{prop}.{st}"), js_string(&px)));
+            kids.push(el_text(&st.to_ascii_lowercase(), &[], px));
+        }
+        let std = meta().prop(&o.class, prop).map(|p| p.std_set).unwrap_or(true);
+        let stdset0 = matches!(surface, Surface::Prop(_)) && !std;
+        self.push(o, path, "gadget-icon", surface, EVal::Tree(el("iconset", &attrs, kids)), stdset0, binds);
+    }
+
+    fn brush(&mut self, o: &mut Obj, path: &[usize], prop: &str) {
+        let color = *self.ch.pick(COLORS);
+        if self.ch.chance(1, 2) {
+            self.push(o, path, "brush-solid", Surface::Prop(prop.into()), EVal::Tree(solid_brush_el(color).unwrap()), false, vec![Bind::new(prop, js_string(color))]);
+        } else {
+            let style = *self.ch.pick(&["Dense4Pattern", "SolidPattern", "CrossPattern", "NoBrush"]);
+            let binds = vec![Bind::new(format!("{prop}.color"), js_string(color)), Bind::new(format!("{prop}.style"), format!("Qt.{style}"))];
+            self.push(o, path, "gadget-brush", Surface::Prop(prop.into()),
+                EVal::Tree(el("brush", &[("brushstyle", style.to_owned())], vec![color_el(color).unwrap()])), false, binds);
         }
     }
-    rec(ch, root, max_per_obj, strings, expects);
+
+    fn rich_one(&mut self, o: &mut Obj, path: &[usize], used: &mut BTreeSet<String>, in_tab: bool) {
+        let k = kind_of(&o.class);
+        let m = meta();
+        let is = |base: &str| m.derives(&o.class, base);
+        let mut cands: Vec<&'static str> = vec![];
+        if k == Kind::Widget {
+            cands.extend(["font", "sizePolicy", "geometry", "minimumSize", "palette", "cursor", "windowIcon"]);
+            if is("QAbstractButton") { cands.extend(["icon", "iconSize", "shortcut"]); }
+            if is("QPushButton") { cands.push("default_"); }
+            if is("QLabel") { cands.push("pixmap"); }
+            if is("QComboBox") || is("QListWidget") { cands.push("model"); }
+            if is("QTableView") { cands.extend(["horizontalHeader", "verticalHeader"]); }
+            if is("QTreeView") { cands.push("header"); }
+            if is("QGraphicsView") { cands.push("backgroundBrush"); }
+            if o.class == "VSrc" { cands.push("sl0"); }
+            if in_tab { cands.extend(["tab-toolTip", "tab-icon", "tab-whatsThis"]); }
+        } else if k == Kind::Action {
+            cands.extend(["font", "icon", "shortcut"]);
+        } else if k == Kind::Layout {
+            cands.push("contentsMargins");
+        } else if k == Kind::Spacer {
+            cands.push("sizeHint");
+        }
+        if cands.is_empty() {
+            return;
+        }
+        // class-specific kinds would drown among the generic widget kinds: favour them
+        let generic = ["font", "sizePolicy", "geometry", "minimumSize", "palette", "cursor", "windowIcon"];
+        let specific: Vec<&'static str> = cands.iter().copied().filter(|c| !generic.contains(c)).collect();
+        let c = if !specific.is_empty() && k == Kind::Widget && self.ch.chance(1, 2) { *self.ch.pick(&specific) } else { *self.ch.pick(&cands) };
+        let key = c.to_owned();
+        if !used.insert(key) {
+            return;
+        }
+        match c {
+            "font" => {
+                let std = m.prop(&o.class, "font").map(|p| p.std_set).unwrap_or(true);
+                self.font(o, path, "font", !std)
+            }
+            "sizePolicy" => self.size_policy(o, path),
+            "geometry" => self.size_like(o, path, "geometry", "rect", &["x", "y", "width", "height"]),
+            "minimumSize" => {
+                let p = *self.ch.pick(&["minimumSize", "maximumSize", "baseSize"]);
+                if used.insert(p.to_owned()) || p == "minimumSize" {
+                    self.size_like(o, path, p, "size", &["width", "height"])
+                }
+            }
+            "iconSize" => self.size_like(o, path, "iconSize", "size", &["width", "height"]),
+            "sizeHint" => self.size_like(o, path, "sizeHint", "size", &["width", "height"]),
+            "palette" => self.palette(o, path),
+            "cursor" => {
+                let v = *self.ch.pick(&["ArrowCursor", "IBeamCursor", "WaitCursor", "PointingHandCursor", "BlankCursor"]);
+                self.push(o, path, "cursor", Surface::Prop("cursor".into()), EVal::CursorShape(v.into()), false, vec![Bind::new("cursor", format!("Qt.{v}"))]);
+            }
+            "windowIcon" | "icon" => self.icon(o, path, c, Surface::Prop(c.into())),
+            "shortcut" => {
+                if self.ch.chance(1, 2) {
+                    let v = *self.ch.pick(&["Copy", "Paste", "Open", "Save", "HelpContents"]);
+                    self.push(o, path, "keysequence-enum", Surface::Prop("shortcut".into()), EVal::Enum(format!("QKeySequence::{v}")), false, vec![Bind::new("shortcut", format!("QKeySequence.{v}"))]);
+                } else {
+                    let (text, s, tr) = if self.strings == StrMode::Xml { gen_str_value(self.ch, StrMode::Xml, true) } else { let s = (*self.ch.pick(&["Ctrl+C", "Alt+F4", "F1", "Ctrl+Shift+<"])).to_owned(); (js_string(&s), s, false) };
+                    self.push(o, path, "keysequence-string", Surface::Prop("shortcut".into()), EVal::Str { s, tr }, false, vec![Bind::new("shortcut", text)]);
+                }
+            }
+            "default_" => {
+                let b = self.ch.chance(1, 2);
+                self.push(o, path, "pseudo-default", Surface::Prop("default".into()), EVal::Bool(b), false, vec![Bind::new("default_", b.to_string())]);
+            }
+            "pixmap" => {
+                let px = if self.strings == StrMode::Xml { gen_string(self.ch, StrMode::Xml) } else { (*self.ch.pick(PIXMAPS)).to_owned() };
+                self.push(o, path, "pixmap", Surface::Prop("pixmap".into()), EVal::Pixmap(px.clone()), false, vec![Bind::new("pixmap", js_string(&px))]);
+            }
+            "model" => {
+                let n = self.ch.below(5);
+                let tr = self.ch.chance(1, 3);
+                let mut items = vec![];
+                let mut texts = vec![];
+                for _ in 0..n {
+                    let s = gen_string(self.ch, self.strings);
+                    texts.push(if tr { format!("qsTr({})", js_string(&s)) } else { js_string(&s) });
+                    items.push((s, tr));
+                }
+                self.push(o, path, "pseudo-model", Surface::Items, EVal::ModelItems(items), false, vec![Bind::new("model", format!("[{}]", texts.join(", ")))]);
+            }
+            "sl0" => {
+                let n = self.ch.below(5);
+                let tr = n > 0 && self.ch.chance(1, 3);
+                let mut items = vec![];
+                let mut texts = vec![];
+                for _ in 0..n {
+                    let s = gen_string(self.ch, self.strings);
+                    texts.push(if tr { format!("qsTr({})", js_string(&s)) } else { js_string(&s) });
+                    items.push(s);
+                }
+                self.push(o, path, "string-list", Surface::Prop("sl0".into()), EVal::StrList { items, tr }, false, vec![Bind::new("sl0", format!("[{}]", texts.join(", ")))]);
+            }
+            "horizontalHeader" | "verticalHeader" | "header" => {
+                let hp: Vec<PropInfo> = simple_props("QHeaderView").into_iter().filter(|p| p.owner == "QHeaderView").collect();
+                let n = 1 + self.ch.below(3);
+                let mut seen = BTreeSet::new();
+                for _ in 0..n {
+                    let p = self.ch.pick(&hp).clone();
+                    if !seen.insert(p.name.clone()) {
+                        continue;
+                    }
+                    if let Some((text, val)) = gen_value(self.ch, &p.ty, self.strings) {
+                        let attr = format!("{c}{}", cap(&p.name));
+                        self.push(o, path, "pseudo-header-map", Surface::Attr(attr), val, !p.std_set, vec![Bind::new(format!("{c}.{}", p.name), text)]);
+                    }
+                }
+            }
+            "backgroundBrush" => self.brush(o, path, "backgroundBrush"),
+            "contentsMargins" => {
+                let sides = ["left", "top", "right", "bottom"];
+                let all = self.ch.chance(1, 2);
+                for s in sides {
+                    if all || self.ch.chance(1, 2) {
+                        let v = self.ch.below(30) as i64;
+                        self.push(o, path, "pseudo-contents-margins", Surface::Prop(format!("{s}Margin")), EVal::Int(v), false, vec![Bind::new(format!("contentsMargins.{s}"), v.to_string())]);
+                    }
+                }
+            }
+            "tab-toolTip" | "tab-whatsThis" => {
+                let name = &c[4..];
+                let (text, s, tr) = gen_str_value(self.ch, self.strings, true);
+                self.push(o, path, "attached-tab", Surface::Attr(name.into()), EVal::Str { s, tr }, false, vec![Bind::new(format!("QTabWidget.{name}"), text)]);
+            }
+            "tab-icon" => self.icon(o, path, "QTabWidget.icon", Surface::Attr("icon".into())),
+            _ => {}
+        }
+    }
+}
+
+/// Adds constant bindings to every object (0..=max_per_obj attempts each) and records what the
+/// .ui must show. With `rich` the whole catalogue is used (gadgets, pseudo properties, attached
+/// tab properties), otherwise only scalar properties.
+pub fn decorate(ch: &mut Chooser, root: &mut Obj, max_per_obj: usize, strings: StrMode, rich: bool, expects: &mut Vec<Expect>) {
+    fn rec(d: &mut Deco, o: &mut Obj, path: &mut Vec<usize>, max: usize, in_tab: bool) {
+        if !is_separator(o) {
+            let n = d.ch.below(max + 1);
+            let mut used: BTreeSet<String> = o.binds.iter().map(|b| first_seg(&b.path).to_owned()).collect();
+            // tab titles generated with the tree become expectations too
+            for _ in 0..n {
+                if d.rich && d.ch.chance(2, 5) {
+                    d.rich_one(o, path, &mut used, in_tab);
+                } else {
+                    d.scalar(o, path, &mut used);
+                }
+            }
+        }
+        let tab = o.class == "QTabWidget";
+        for (i, c) in o.children.iter_mut().enumerate() {
+            path.push(i);
+            rec(d, c, path, max, tab);
+            path.pop();
+        }
+    }
+    let mut d = Deco { ch, strings, expects, rich };
+    rec(&mut d, root, &mut vec![], max_per_obj, false);
+}
+
+fn first_seg(p: &str) -> &str {
+    p.split('.').next().unwrap()
+}
+
+pub fn decorate_simple(ch: &mut Chooser, root: &mut Obj, max_per_obj: usize, strings: StrMode, expects: &mut Vec<Expect>) {
+    decorate(ch, root, max_per_obj, strings, false, expects)
+}
+
+/// Structural equivalence up to child order and whitespace-only text (a = emitted, b = expected).
+pub fn elem_equiv(a: &Elem, b: &Elem) -> bool {
+    if a.name != b.name {
+        return false;
+    }
+    let mut aa = a.attrs.clone();
+    let mut ba = b.attrs.clone();
+    aa.sort();
+    ba.sort();
+    if aa != ba {
+        return false;
+    }
+    let ae: Vec<&Elem> = a.elems().collect();
+    let be: Vec<&Elem> = b.elems().collect();
+    if ae.len() != be.len() {
+        return false;
+    }
+    if ae.is_empty() {
+        if b.text() == CONTAINER_MARK {
+            // expected: a container without children; blank text (indentation) is fine
+            return !a.has_nonblank_text();
+        }
+        return a.text() == b.text();
+    }
+    if a.has_nonblank_text() || b.has_nonblank_text() {
+        return false;
+    }
+    let mut usedb = vec![false; be.len()];
+    for x in &ae {
+        let mut found = false;
+        for (j, y) in be.iter().enumerate() {
+            if !usedb[j] && elem_equiv(x, y) {
+                usedb[j] = true;
+                found = true;
+                break;
+            }
+        }
+        if !found {
+            return false;
+        }
+    }
+    true
 }
 
 /// Compares a decoded value with the expectation.
@@ -490,12 +945,70 @@ pub fn value_matches(got: &crate::form::FValue, want: &EVal) -> bool {
     match (got, want) {
         (F::Bool(a), EVal::Bool(b)) => a == b,
         (F::Number(s), EVal::Int(v)) => s.parse::<i64>().map(|x| x == *v).unwrap_or(false),
-        (F::Number(s), EVal::Double(v)) => s.parse::<f64>().map(|x| x.to_bits() == v.to_bits() || (x == *v)).unwrap_or(false),
+        (F::Number(s), EVal::Double(v)) => s.parse::<f64>().map(|x| x == *v).unwrap_or(false),
         (F::Str { text, notr }, EVal::Str { s, tr }) => text == s && *notr != *tr,
         (F::Enum(a), EVal::Enum(b)) => a == b,
         (F::Set(a), EVal::Set(b)) => &a.split('|').map(|x| x.to_owned()).collect::<BTreeSet<_>>() == b,
         (F::Cstring(a), EVal::Cstring(b)) => a == b,
-        (F::StringList { items, notr }, EVal::StrList { items: w, tr }) => items == w && *notr != *tr,
+        (F::StringList { items, notr }, EVal::StrList { items: w, tr }) => items == w && (*notr != *tr),
+        (F::CursorShape(a), EVal::CursorShape(b)) => a == b,
+        (F::Pixmap(a), EVal::Pixmap(b)) => a == b,
+        (F::Other(e), EVal::Tree(w)) => elem_equiv(e, w),
         _ => false,
     }
+}
+
+/// Finds the decoded object for a model path (separators have no element).
+pub fn fobj_at<'f>(root: &Obj, f: &'f crate::form::Form, path: &[usize]) -> Option<&'f crate::form::FObj> {
+    let mut cur = &f.root;
+    let mut m = root;
+    for i in path {
+        if is_separator(m.children.get(*i)?) {
+            return None;
+        }
+        let pos = m.children.iter().enumerate().filter(|(_, c)| !is_separator(c)).position(|(k, _)| k == *i)?;
+        cur = &cur.children.get(pos)?.obj;
+        m = &m.children[*i];
+    }
+    Some(cur)
+}
+
+/// Checks every expectation against the decoded form. Err((aspect, description)).
+pub fn check_expects(root: &Obj, f: &crate::form::Form, expects: &[Expect]) -> Result<(), (String, String)> {
+    for e in expects {
+        let Some(fo) = fobj_at(root, f, &e.obj) else {
+            return Err(("object-missing".into(), format!("object {:?} not found in the form", e.obj)));
+        };
+        let describe = || format!("{} binding(s) {:?} of object {:?} ({})", e.kind, e.binds.iter().map(|i| root.at(&e.obj).binds[*i].path.clone()).collect::<Vec<_>>(), e.obj, root.at(&e.obj).class);
+        match &e.surface {
+            Surface::Prop(n) | Surface::Attr(n) => {
+                let is_attr = matches!(e.surface, Surface::Attr(_));
+                let found = if is_attr { fo.attr(n) } else { fo.prop(n) };
+                let Some(p) = found else {
+                    return Err((format!("{}-missing", e.kind), format!("{}: no <{} name={:?}> under {:?}", describe(), if is_attr { "attribute" } else { "property" }, n, fo.name)));
+                };
+                if !value_matches(&p.value, &e.value) {
+                    return Err((format!("{}-value", e.kind), format!("{}: emitted {:?}, expected {:?}", describe(), p.value, e.value)));
+                }
+                if p.stdset0 != e.stdset0 {
+                    return Err((format!("{}-stdset", e.kind), format!("{}: stdset=\"0\" is {}, expected {}", describe(), p.stdset0, e.stdset0)));
+                }
+            }
+            Surface::Items => {
+                let EVal::ModelItems(want) = &e.value else { continue };
+                let got: Vec<(String, bool)> = fo
+                    .model_items
+                    .iter()
+                    .map(|props| match props.iter().find(|p| p.name == "text").map(|p| &p.value) {
+                        Some(crate::form::FValue::Str { text, notr }) => (text.clone(), !*notr),
+                        _ => ("<no text property>".to_owned(), false),
+                    })
+                    .collect();
+                if &got != want {
+                    return Err(("model-items".into(), format!("{}: items {:?}, expected {:?}", describe(), got, want)));
+                }
+            }
+        }
+    }
+    Ok(())
 }
